@@ -68,6 +68,8 @@ func (v *PointerSchema) process(ctx *p.SchemaCtx) {
 			return
 		}
 		ctx.Data = val
+		// the factory has been consumed (e.g. the request body has been read). The schema must receive its result, not call it again
+		subCtx.Data = val
 	}
 	// End of messy code
 
